@@ -9,6 +9,7 @@ import (
 	"sync"
 	"testing"
 
+	"github.com/blugelabs/bluge"
 	"github.com/blugelabs/bluge/index"
 	"pgregory.net/rapid"
 
@@ -40,6 +41,9 @@ type Case struct {
 	Conf    vlib.IdxConf     `json:"conf"`
 	Batches []vlib.BatchSpec `json:"batches"`
 	Faults  []FaultSpec      `json:"faults"`
+	// HoldAfter: a reader is taken after these batch indexes and held to the end ("open and new
+	// Readers keep answering according to the batches applied so far")
+	HoldAfter []int `json:"hold_after,omitempty"`
 }
 
 func gen(t *rapid.T) Case {
@@ -51,6 +55,10 @@ func gen(t *rapid.T) Case {
 	n := rapid.IntRange(6, 12).Draw(t, "nBatches")
 	for i := 0; i < n; i++ {
 		c.Batches = append(c.Batches, g.Batch(t, 3))
+	}
+	nh := rapid.IntRange(0, 3).Draw(t, "nHeld")
+	for i := 0; i < nh; i++ {
+		c.HoldAfter = append(c.HoldAfter, rapid.IntRange(0, n-1).Draw(t, "holdAfter"))
 	}
 	nf := 1
 	if vlib.Thorough() && rapid.Bool().Draw(t, "two") {
@@ -68,7 +76,7 @@ func gen(t *rapid.T) Case {
 }
 
 type stats struct {
-	injected, injectedBg, errBatches, asyncErrs, images, ackedAfter int
+	injected, injectedBg, errBatches, asyncErrs, images, ackedAfter, heldUses int
 	ntKeys                                                         []string
 	kinds                                                          map[string]int
 }
@@ -134,6 +142,42 @@ func prop(c Case, st *stats) (fail *vlib.Failure) {
 		}
 	}()
 	m := vlib.NewModel()
+	type heldReader struct {
+		r     *bluge.Reader
+		model *vlib.Model
+		after int
+	}
+	var held []*heldReader
+	defer func() {
+		for _, h := range held {
+			_ = h.r.Close()
+		}
+	}()
+	useHeld := func(site string) *vlib.Failure {
+		for _, h := range held {
+			var o *vlib.Obs
+			var err error
+			if f := vlib.Watchdog("use-held-reader", vlib.CallBound, func() *vlib.Failure {
+				if rr.X.NoStored() {
+					o, err = vlib.ObserveNoStored(h.r, h.model.SortedIDs())
+				} else {
+					o, err = vlib.Observe(h.r, h.model.SortedIDs())
+				}
+				return nil
+			}); f != nil {
+				return f
+			}
+			if err != nil {
+				return vlib.Failf("held-reader-error", "%s: reader held since batch %d fails: %v", site, h.after, err)
+			}
+			if f := vlib.CompareModel(fmt.Sprintf("%s (reader held since batch %d)", site, h.after), h.model, o); f != nil {
+				f.Key = "held-reader-after-fault:" + f.Key
+				return f
+			}
+			st.heldUses++
+		}
+		return nil
+	}
 	for j, b := range c.Batches {
 		if f := rr.Batch(b); f != nil {
 			return f // hang or panic
@@ -154,6 +198,18 @@ func prop(c Case, st *stats) (fail *vlib.Failure) {
 			f.Key = "reader-after-fault:" + f.Key
 			return f
 		}
+		for _, ha := range c.HoldAfter {
+			if ha == j && len(held) < 3 {
+				r, f := rr.X.Reader()
+				if f != nil {
+					return f
+				}
+				held = append(held, &heldReader{r: r, model: m.Clone(), after: j})
+			}
+		}
+		if f := useHeld(fmt.Sprintf("after batch %d", j)); f != nil {
+			return f
+		}
 	}
 	// faults clear now at the latest
 	mu.Lock()
@@ -170,6 +226,13 @@ func prop(c Case, st *stats) (fail *vlib.Failure) {
 		return vlib.Failf("error-after-fault-cleared", "the batch issued after all faults were cleared returned %q", e)
 	}
 	m.Apply(tail)
+	if f := useHeld("after the faults cleared"); f != nil {
+		return f
+	}
+	for _, h := range held {
+		_ = h.r.Close()
+	}
+	held = nil
 	closed = true
 	if f := rr.Finish(true); f != nil {
 		return f
@@ -276,6 +339,7 @@ func TestC14Faults(t *testing.T) {
 		ev.Case(vlib.Canon(c), nt, cls...)
 		ev.Evals(st.images)
 		ev.AddExtra("faults_injected", st.injected)
+		ev.AddExtra("uses_of_readers_held_across_faults", st.heldUses)
 		ev.AddExtra("faults_on_persister_or_merger", st.injectedBg)
 		ev.AddExtra("batches_returning_the_injected_error", st.errBatches)
 		ev.AddExtra("crash_images_of_faulty_traces_opened", st.images)
